@@ -155,6 +155,25 @@ def _stim(repo, col, R="R-C02-stim"):
     ok = gr is not None and gl is not None and gr.key() == gl.key()
     col.check(ok, R, fi, "radius and length gathered with one index array",
               "radius[i] and length[i] use the same i", "radius and length are gathered with different indices", node=c)
+    # row j of the stimulus belongs to entry j of the index list: both are used in the order given (or permuted alike)
+    def spine(t):
+        while True:
+            if t.op in ("mcall", "call") and t.name in ("asarray", "array", "astype", "expand_dims", "reshape", "squeeze", "ravel", "flatten") and t.args:
+                t = next((a_ for a_ in t.args if a_.op != "free"), t.args[0])
+            elif t.op == "sub" and (T.find(t.args[1], lambda x: x.op == "const" and x.name is None) is not None or t.args[1].op == "slice"):
+                t = t.args[0]     # x[:, None], x[None], x[:]
+            else:
+                return t
+    if gr is not None:
+        sp_i, sp_v = spine(gr), spine(args[0])
+        same_order = sp_i.op == "param" and sp_v.op == "param"
+        alike = sp_i.op == "sub" and sp_v.op == "sub" and sp_i.args[1].key() == sp_v.args[1].key() and spine(sp_i.args[0]).op == "param" and spine(sp_v.args[0]).op == "param"
+        col.add(R, fi, "row j of the stimulus is delivered to entry j of the index list", "DISCHARGED" if (same_order or alike) else
+                ("VIOLATED" if sp_v.op == "param" and T.find(sp_i, lambda x: x.op in ("mcall", "call") and x.name in ("argsort", "sort", "unique", "flip", "roll", "permutation")) is not None
+                 else "UNDECIDED"),
+                "both used in the order given" if same_order else ("both permuted alike" if alike else
+                f"the index list is re-ordered ({sp_i.short(70)}) but the stimulus rows are not: stimulus j reaches the j-th entry of the re-ordered list, "
+                f"i.e. another compartment than the one it was attached to (the total charge is unchanged)"), node=c)
     bases = {"radius": args[1].args[0] if args[1].op == "sub" else None,
              "length": args[2].args[0] if args[2].op == "sub" else None}
     params = fi.params
